@@ -86,14 +86,20 @@ def run_streams(pid, cfg, tier, seed, extra_round=0):
     return results
 
 
+def _evidence_dir():
+    """evidence/ normally; trials against seeded changes redirect it (VERIF_EVIDENCE_DIR) so that the committed
+    evidence always comes from runs on the unchanged tree."""
+    return os.environ.get("VERIF_EVIDENCE_DIR") or os.path.join(VERIF, "evidence")
+
+
 def _write_replay(pid, payload):
-    d = os.path.join(VERIF, "evidence", "replays")
+    d = os.path.join(_evidence_dir(), "replays")
     os.makedirs(d, exist_ok=True)
     h = hashlib.sha256(json.dumps(payload, sort_keys=True, default=str).encode()).hexdigest()[:12]
     path = os.path.join(d, f"{pid}-{h}.json")
     with open(path, "w") as f:
         json.dump(payload, f, indent=1, default=str)
-    return os.path.relpath(path, VERIF)
+    return os.path.relpath(path, VERIF) if path.startswith(VERIF) else path
 
 
 def _known(pid, what, known):
@@ -122,7 +128,7 @@ def _relevant(cfg, disag):
 
 
 def decide(pid, cfg, tier, seed, lean, results, known, t0):
-    os.makedirs(os.path.join(VERIF, "evidence"), exist_ok=True)
+    os.makedirs(_evidence_dir(), exist_ok=True)
     viols = [v for r in results for v in r.violations if v["property"] == pid]
     disag = _relevant(cfg, [d for r in results for d in r.disagreements])
     lean_broken = (not lean["build_ok"]) or bool(lean["failed"])
@@ -197,7 +203,7 @@ def decide(pid, cfg, tier, seed, lean, results, known, t0):
     ev = {"property_id": pid, "tier": tier, "seed": seed, "level": level, "coverage": cov,
           "assumptions": cfg.get("assumptions", []) + ["see DESIGN.md §6 (trusted base)"],
           "wall_s": round(time.time() - t0, 2), "violations": len(unlisted) + (1 if rc and not unlisted else 0)}
-    with open(os.path.join(VERIF, "evidence", f"{pid}.json"), "w") as f:
+    with open(os.path.join(_evidence_dir(), f"{pid}.json"), "w") as f:
         json.dump(ev, f, indent=1, default=str)
     print(f"{pid}: tier={tier} seed={seed} theorems={n_dis}/{n_obl} cases={evaluations} "
           f"disagreements={len(disag)} violations={len(viols)} rc={rc} wall={ev['wall_s']}s")
